@@ -214,6 +214,10 @@ for variant, cls in (('inverse', 'KFACInverseLayer'), ('eigen', 'KFACEigenLayer'
             ('second_order_data_recomputed_from_restored_state[ghost]',
              "implies(compute_inverses and 'layers' in state_dict, all(implies(" + L_ + "._a_factor is not None and " + L_ + "._g_factor is not None, "
              + refreshed(L_, 'self._layers[m][0]', 'self.damping', guard=False) + ") for m in self._layers))"),
+            # the same statement on values, as an executable oracle (bounded stand-in when the function is
+            # outside the generator's subset; single-process runs)
+            ('second_order_data_matches_restored_factors[bounded]',
+             "implies(compute_inverses and 'layers' in state_dict, all(second_order_consistent(" + L_ + ", self.damping) for m in self._layers))"),
         ],
         loops={"iter:state_dict['layers'].items()": dict(index='i', invariants=LINV),
                'iter:self._layers.values()#0': dict(index='j', invariants=LINV),
